@@ -132,6 +132,7 @@ type Config struct {
 	StartP2P       bool     // start the real libp2p connection (needed by handlers that ban peers, and by sync)
 	P2PAddrs       []string // listen addresses when StartP2P (empty: no listener)
 	P2PSeed        []byte
+	MemTable       int // pebble memtable size (0: 256 KiB)
 }
 
 func DefaultConfig(n int) Config {
@@ -476,7 +477,11 @@ func New(cfg Config) (*Node, error) {
 		if cfg.FS != nil {
 			fs = cfg.FS
 		}
-		d, err := db.VerifOpen("", &pebble.Options{FS: fs, MemTableSize: 256 << 10, Cache: sharedCache, DisableAutomaticCompactions: true})
+		mt := 256 << 10
+		if cfg.MemTable != 0 {
+			mt = cfg.MemTable
+		}
+		d, err := db.VerifOpen("", &pebble.Options{FS: fs, MemTableSize: mt, Cache: sharedCache, DisableAutomaticCompactions: true})
 		if err != nil {
 			return nil, err
 		}
@@ -984,6 +989,17 @@ func MenuShape(k int, height uint32, salt byte) Shape {
 		return Shape{SkipSlots: 1, Salt: salt}
 	case 7:
 		return Shape{WithAgg: true, Txs: []TxSpec{{Sender: 0, Nonce: nonce(0), Fee: 5, Script: []byte{0}}}, Salt: salt}
+	case 8:
+		// a block whose single write batch is larger than 4 MiB: 400 transactions of 13 KiB (needs MaxPayload >= 6 MiB)
+		txs := make([]TxSpec, 400)
+		for j := range txs {
+			params := make([]byte, 13<<10)
+			for i := 1; i < len(params); i++ {
+				params[i] = byte(i*7 + j)
+			}
+			txs[j] = TxSpec{Sender: j % 3, Nonce: nonce(0) + uint64(j), Fee: 100, Script: params}
+		}
+		return Shape{Txs: txs, Assets: []*blockchain.BlockAsset{{Module: "ev", Data: []byte{4, 5}}}, Salt: salt}
 	}
 	panic("bad shape")
 }
